@@ -7,6 +7,40 @@ from common import hx, unhx
 from props import parsegen as G
 
 
+GLUE = ["$b", '""', "''", "\\y", "$(id)", "`y`", "$((1))", "${m}", "1", "-", "é", "x"]
+
+
+def name_positions():
+    """words in the positions where the grammar demands a NAME, an IO number or an assignment name, in every composite shape"""
+    out = []
+    for g in GLUE:
+        for w in ("a" + g, g + "a", "a" + g + "b"):
+            out += ["for %s in x; do :; done\n" % w, "for %s; do :; done\n" % w, "for %s do :; done\n" % w, "for %s\ndo :; done\n" % w,
+                    "{ for %s in x; do :; done; }\n" % w, "if x; then for %s in y; do :; done; fi\n" % w,
+                    "%s() { :; }\n" % w, "%s () ( : )\n" % w, "x | %s() { :; }\n" % w,
+                    "%s=1 cmd\n" % w, "a=1 %s=2 cmd\n" % w, "cmd %s=2\n" % w, "%s=\n" % w,
+                    "cmd %s>f\n" % w, "cmd %s<<E\nb\nE\n" % w, "cmd 2%s>f\n" % g,
+                    "case %s in %s) : ;; esac\n" % (w, w), "%s\n" % w]
+    return out
+
+
+def token_parts(rnd, tier, n_progs):
+    g = G.Gen(rnd)
+    progs = [g.program(rnd.choice([1, 2, 2, 3])) for _ in range(n_progs)]
+    muts = []
+    for p in progs[: n_progs // 2]:
+        for _ in range(3):
+            muts.append(G.mutate_tokens(rnd, p))
+        muts.append(p[: rnd.randint(0, len(p))])
+    short = [" ".join(t) for t in __import__("itertools").product(G.ALPHA1 + G.WORDS1, repeat=3)]
+    short += list(G.strings_upto(G.ALPHA1, 3))
+    names = name_positions()
+    cases = [G.pcase(m) for m in progs + muts + short + names]
+    return [{"name": "tokens-vs-grammar-model", "harness": "tokens", "driver": "ptok", "cases": cases, "compare": lambda c, i, m: True,
+             "nontrivial": lambda c: len(unhx(c.split("\t")[0]).split()) >= 2,
+             "distribution": {"programs": len(progs), "mutants": len(muts), "short": len(short), "name_positions": len(names)}}]
+
+
 class P:
     id = "C02"
     rule = ("generated programs (depth 1-3, all productions, heredocs, comments, rich layout), their single-token mutants and truncations, "
@@ -16,20 +50,7 @@ class P:
 
     def parts(self, seed, tier, C):
         rnd = random.Random(seed)
-        g = G.Gen(rnd)
-        n = 3000 if tier == "quick" else 40000
-        progs = [g.program(rnd.choice([1, 2, 2, 3])) for _ in range(n)]
-        muts = []
-        for p in progs[: n // 2]:
-            for _ in range(3):
-                muts.append(G.mutate_tokens(rnd, p))
-            muts.append(p[: rnd.randint(0, len(p))])
-        short = [" ".join(t) for t in __import__("itertools").product(G.ALPHA1 + G.WORDS1, repeat=3)]
-        short += list(G.strings_upto(G.ALPHA1, 3))
-        cases = [G.pcase(m) for m in progs + muts + short]
-        return [{"name": "tokens-vs-grammar-model", "harness": "tokens", "driver": "ptok", "cases": cases, "compare": lambda c, i, m: True,
-                 "nontrivial": lambda c: len(unhx(c.split("\t")[0]).split()) >= 2,
-                 "distribution": {"programs": len(progs), "mutants": len(muts), "short": len(short)}}]
+        return token_parts(rnd, tier, 3000 if tier == "quick" else 40000)
 
     def describe(self, part, case):
         return G.describe(case)
